@@ -8,7 +8,7 @@ use std::sync::Arc;
 
 use thiserror::Error;
 
-use crate::cas_manager::{CasManager, CasManagerError};
+use crate::cas_manager::{CasIoOperation, CasManager, CasManagerError};
 use crate::index::{Index, IndexError, IndexReadGuard, IndexStateItem};
 use crate::orphan::OrphanStats;
 use crate::settings::{DbSettings, SettingsError, SettingsPersister};
@@ -291,21 +291,29 @@ where
     /// Get a blob by its key.
     /// Returns `Ok(None)` if the key does not exist.
     pub fn get(&self, key: &K) -> Result<Option<bytes::Bytes>, LibError> {
-        self.with_blob_item(key, |item| self.cas_manager.read_blob(&item.blob_hash))
+        self.with_blob_item(
+            key,
+            |item| self.cas_manager.open_blob(&item.blob_hash, CasIoOperation::ReadContent),
+            |_item, (file, path)| CasManager::read_blob_from(file, &path),
+        )
     }
 
     /// Get the size of a blob by its key.
     /// Returns `Ok(None)` if the key does not exist.
     /// Uses index metadata only; no blob I/O.
     pub fn get_size(&self, key: &K) -> Result<Option<u64>, LibError> {
-        self.with_blob_item(key, |item| Ok(item.blob_size))
+        self.with_blob_item(key, |_item| Ok(()), |item, ()| Ok(item.blob_size))
     }
 
     /// Get a `BufReader` by key.
     /// Returns `Ok(None)` if the key does not exist.
     /// Safe to hold for long periods, will stream data even if the key was deleted.
     pub fn get_reader(&self, key: &K) -> Result<Option<BufReader<File>>, LibError> {
-        self.with_blob_item(key, |item| self.cas_manager.blob_bufreader(&item.blob_hash))
+        self.with_blob_item(
+            key,
+            |item| self.cas_manager.open_blob(&item.blob_hash, CasIoOperation::OpenBuffered),
+            |_item, (file, _path)| Ok(BufReader::new(file)),
+        )
     }
 
     /// Get a range of bytes from a blob.
@@ -320,14 +328,30 @@ where
         range_start: u64,
         range_end: u64,
     ) -> Result<Option<bytes::Bytes>, LibError> {
-        self.with_blob_item(key, |item| {
-            if range_start >= item.blob_size {
-                return Ok(bytes::Bytes::new());
-            }
-            let range_end = std::cmp::min(range_end, item.blob_size);
-
-            self.cas_manager.read_blob_range(&item.blob_hash, range_start, range_end)
-        })
+        self.with_blob_item(
+            key,
+            |item| {
+                if range_start >= item.blob_size {
+                    return Ok(None);
+                }
+                let range_end = std::cmp::min(range_end, item.blob_size);
+                if range_start > range_end {
+                    return Err(CasManagerError::InvalidRangeStartEnd {
+                        start: range_start,
+                        end: range_end,
+                    });
+                }
+                let (file, path) =
+                    self.cas_manager.open_blob(&item.blob_hash, CasIoOperation::OpenRangeRead)?;
+                Ok(Some((file, path, range_end)))
+            },
+            |_item, opened| match opened {
+                None => Ok(bytes::Bytes::new()),
+                Some((file, path, range_end)) => {
+                    CasManager::read_blob_range_from(&file, &path, range_start, range_end)
+                }
+            },
+        )
     }
 
     /// Remove key-value pair from the CAS
@@ -383,17 +407,30 @@ where
         self.index.checkpoint(CheckpointReason::Explicit).map_err(LibError::Index)
     }
 
-    fn with_blob_item<T, F>(&self, key: &K, f: F) -> Result<Option<T>, LibError>
+    /// Look `key` up and run `prepare` (which opens the blob file, if the call needs one) while
+    /// the index read guard is still held, then run `finish` without the guard.
+    ///
+    /// A concurrent overwrite or removal can only reclaim the blob after its index update, which
+    /// needs the write lock; a file that was opened before that stays readable after its name
+    /// is gone. Opening the blob after releasing the guard let such a writer slip in between
+    /// and made the read fail with `BlobDataMissing`.
+    fn with_blob_item<U, T, P, F>(&self, key: &K, prepare: P, finish: F) -> Result<Option<T>, LibError>
     where
-        F: FnOnce(&IndexStateItem) -> Result<T, CasManagerError>,
+        P: FnOnce(&IndexStateItem) -> Result<U, CasManagerError>,
+        F: FnOnce(&IndexStateItem, U) -> Result<T, CasManagerError>,
     {
-        let Some(item) = self.index.read_state().get_item(key) else {
-            return Ok(None);
+        let (item, prepared) = {
+            let state = self.index.read_state();
+            let Some(item) = state.get_item(key) else {
+                return Ok(None);
+            };
+
+            #[cfg(feature = "verif")]
+            crate::verif::point("F:read_open");
+            (item, prepare(&item))
         };
 
-        #[cfg(feature = "verif")]
-        crate::verif::point("F:read_open");
-        match f(&item) {
+        match prepared.and_then(|prepared| finish(&item, prepared)) {
             Ok(result) => Ok(Some(result)),
             Err(cas_error) => {
                 if let Some(io_err) =
